@@ -616,7 +616,11 @@ def reset_discipline(rep, rule, idx, class_specs, allowed=(), allowed_init=(), a
                 for st in _ast.walk(f.node):
                     calls = []
                     if isinstance(st, _ast.Assign) and isinstance(st.value, _ast.Call):
-                        calls = [(st.value, _ast.unparse(st.targets[0]).split(".")[-1])]
+                        # a register is known by the name it is given (an explicit constant name= keeps the hardware name when the
+                        # Python variable is renamed), else by the variable it is assigned to
+                        nm_kw = next((k.value.value for k in st.value.keywords if k.arg == "name" and isinstance(k.value, _ast.Constant) and
+                                      isinstance(k.value.value, str)), None)
+                        calls = [(st.value, nm_kw or _ast.unparse(st.targets[0]).split(".")[-1])]
                     elif isinstance(st, _ast.Call):
                         calls = [(st, None)]
                     for call, name in calls:
